@@ -10,7 +10,7 @@ def prebuild(repo):
 
 def spec(tier, seed, repo):
     q = tier == "quick"
-    f = 1 if q else 15          # thorough multiplies the seeded exploration by 25
+    f = 1 if q else 8           # thorough multiplies the seeded exploration by 25
     floors = {
         "runs": 2500 * f, "handovers": 200000 * f, "runs_quiescent": 2400 * f,
         "runs_with_byzantine": 700 * f, "runs_all_honest": 700 * f,
@@ -27,8 +27,12 @@ def spec(tier, seed, repo):
         "oracle_validity_slots": 5000, "oracle_totality_slots": 5000, "byz_slots_delivered": 100,
         "injected": 5000, "recorded_runs": 100,
     }
+    from .. import runner
+    # a smaller ASan quarantine: the workload creates and destroys ~3000 short-lived networks per run and is
+    # otherwise dominated by page faults on never-reused memory
+    env = {"ASAN_OPTIONS": runner.SAN_ENV["ASAN_OPTIONS"] + ":quarantine_size_mb=32:thread_local_quarantine_size_kb=256"}
     return dict(
-        stages=[stage("w_c14", repo, nshards=16, case_timeout=600 if q else 1800, total_timeout=3600 if q else 4 * 3600)],
+        stages=[stage("w_c14", repo, nshards=16, case_timeout=600 if q else 1800, total_timeout=3600 if q else 4 * 3600, env=env)],
         level="exploration",
         rule="one run = one schedule of a closed system of n parties (n in {2,3,4,5,7}; t = floor((n-1)/3) or 0; f <= t "
              "Byzantine parties whose messages are fabricated by the harness) executing one channel program (setID / "
